@@ -490,3 +490,12 @@ func stringsIndex(s, sub string) int {
 // SubnetLoadFailed reports whether the i-th modelled load of the phantom subnet
 // file failed (engine only; natively false).
 func SubnetLoadFailed(i int) bool { return false }
+
+// DialReturns scripts the next net.Dial (engine only).
+func DialReturns(c net.Conn, err error) {}
+
+// Dialed returns the address of the last net.Dial (engine only).
+func Dialed() string { return "" }
+
+// LiveThreads: goroutines other than the caller that have not finished (engine; -1 natively).
+func LiveThreads() int { return -1 }
